@@ -149,7 +149,10 @@ DEEP = {"zzSqrt": ["zzSqrt", "zzSqrt_deep"], "zzDiv": ["zzDiv", "zzMod", "zzDiv_
         "zzInvMod": ["zzDivMod", "zzInvMod", "zzAlmostInvMod", "zzDivMod_deep", "zzInvMod_deep", "zzAlmostInvMod_deep"],
         "zzPowerMod": ["zzPowerMod", "zzPowerMod_deep"]}
 for f, fns in DEEP.items():
-    for n, m in ((1, 1), (2, 1), (2, 2), (3, 2), (4, 4), (6, 3), (8, 8)):
+    # second operand longer than the first: only the GCD family admits it (added after seeded C07/m5: zzGCD_deep = 2n)
+    for n, m in ((1, 1), (2, 1), (2, 2), (3, 2), (4, 4), (6, 3), (8, 8), (1, 2), (1, 3), (2, 4), (3, 4), (3, 7)):
+        if n < m and f != "zzGCD":
+            continue
         if f in ("zzMulMod", "zzRed", "zzInvMod") and n != m:
             continue
         if f == "zzDiv" and n < m:
